@@ -27,7 +27,7 @@ func checkC17(c *Ctx) {
 	ruleExternalReset(c, dv, dv.fn["Panic"], "R17.4")
 	ruleFrameUnderLocks(c, dv)
 	ruleLedOffset(c, dv)
-	c.MinCount("R17.1", 2)
+	c.MinCount("R17.1", 4)
 	c.MinCount("R17.2", 4)
 	c.MinCount("R17.3", 1)
 	c.MinCount("R17.5", 5)
@@ -55,108 +55,232 @@ func velocityTerm(t *Term) bool {
 	return false
 }
 
-// ruleVelocityZero: R17.1.
+// ruleVelocityZero: R17.1, decided on the paths of one iteration of the MIDI-input loop: under every assumption about
+// the received message (Note On with velocity > 0, Note On with velocity 0, Note Off, another type) every path that
+// is consistent with it must light / clear / leave alone the key, whatever shape (switch, if-chain, merged branches)
+// the code has.  Atoms over ev.Type() and ev.Velocity() are only ever comparisons with constants, so a path is
+// consistent with an assumption iff those comparisons evaluate to true on representative values.
 func ruleVelocityZero(c *Ctx, dv *dev) {
 	fn := dv.fn["handleInputEvents"]
 	c.Fn(shortFn(fn))
-	vw := NewFnView(c.P, fn)
-	ext := dv.fields["externalNoteTracker"]
+	pos := c.P.Pos(fn.Pos())
 	noteOn, _ := c.P.constValue(pkgMidi, "NoteOn")
 	onV, _ := constant.Int64Val(noteOn)
-	sets, dels := 0, 0
-	delOnZero, delOnOff := false, false
 	noteOff, _ := c.P.constValue(pkgMidi, "NoteOff")
 	offV, _ := constant.Int64Val(noteOff)
+	// the receive from midiIn: a select state or a plain receive
+	var start *ssa.BasicBlock
+	selIdx := int64(-1)
 	for _, b := range fn.Blocks {
 		for _, in := range b.Instrs {
 			switch x := in.(type) {
-			case *ssa.MapUpdate:
-				if !derivesFromField(x.Map, ext, map[ssa.Value]bool{}) {
-					continue
-				}
-				k, isK := x.Value.(*ssa.Const)
-				if !isK || k.Value == nil || !constant.BoolVal(k.Value) {
-					continue
-				}
-				sets++
-				key := fmt.Sprintf("device.handleInputEvents/mark-sounding#%d", sets)
-				pos := c.P.Pos(x.Pos())
-				atoms := vw.GuardsAt(b)
-				nonZero := false
-				for _, a := range atoms {
-					op, l, r, ok := normAtom(a)
-					if !ok {
-						continue
-					}
-					if _, isC := l.IsConst(); isC {
-						l, r, op = r, l, flipOp(op)
-					}
-					if kk, isKK := r.IsIntConst(); isKK && velocityTerm(l) {
-						bd := boundsFrom([]Atom{a}, l.String(), bound{lo: 0, hi: 255, hasLo: true, hasHi: true})
-						if bd.lo >= 1 {
-							nonZero = true
-						}
-						_ = kk
+			case *ssa.Select:
+				for i, st := range x.States {
+					if derivesFromField(st.Chan, dv.fields["midiIn"], map[ssa.Value]bool{}) {
+						start, selIdx = b, int64(i)
 					}
 				}
-				locked := heldAt(x, dv.fields["externalTrackerMutex"])
-				switch {
-				case !nonZero:
-					c.Bad("R17.1", key, pos, "a key is marked as sounding for every Note On without looking at the velocity: a Note On with velocity 0 (the running-status spelling of Note Off that most keyboards send) lights the key and it stays lit")
-				case !locked:
-					c.Bad("R17.1", key, pos, "external tracker written without its mutex")
-				default:
-					c.OK("R17.1", key, pos, "marked only under a dominating velocity != 0 test, with the tracker mutex held")
-				}
-			case *ssa.Call:
-				bi, ok := x.Call.Value.(*ssa.Builtin)
-				if !ok || bi.Name() != "delete" || !derivesFromField(x.Call.Args[0], ext, map[ssa.Value]bool{}) {
-					continue
-				}
-				dels++
-				atoms := vw.GuardsAt(b)
-				isOn, zero := false, false
-				for _, a := range atoms {
-					op, l, r, ok := normAtom(a)
-					if !ok {
-						continue
-					}
-					if _, isC := l.IsConst(); isC {
-						l, r, op = r, l, flipOp(op)
-					}
-					kk, isKK := r.IsIntConst()
-					if !isKK {
-						continue
-					}
-					if op == "==" && kk == onV && strings.Contains(l.String(), ".Type") {
-						isOn = true
-					}
-					if op == "==" && kk == offV && strings.Contains(l.String(), ".Type") {
-						delOnOff = true
-					}
-					if velocityTerm(l) {
-						bd := boundsFrom([]Atom{a}, l.String(), bound{lo: 0, hi: 255, hasLo: true, hasHi: true})
-						if bd.hi == 0 {
-							zero = true
-						}
-					}
-				}
-				if isOn && zero {
-					delOnZero = true
-				}
-				if !heldAt(x, dv.fields["externalTrackerMutex"]) {
-					c.Bad("R17.1", fmt.Sprintf("device.handleInputEvents/clear#%d", dels), c.P.Pos(x.Pos()), "external tracker written without its mutex")
+			case *ssa.UnOp:
+				if x.Op == token.ARROW && derivesFromField(x.X, dv.fields["midiIn"], map[ssa.Value]bool{}) {
+					start = b
 				}
 			}
 		}
 	}
-	pos := c.P.Pos(fn.Pos())
-	if sets == 0 {
-		c.Undec("R17.1", "device.handleInputEvents/mark-sounding", pos, "no store of `true` into the external tracker found")
+	if !c.Require(start != nil, "R17.1", "device.handleInputEvents/receive(midiIn)", "no receive from Device.midiIn found") {
+		return
 	}
-	c.Check(delOnZero, "R17.1", "device.handleInputEvents/note-on-velocity-0-clears", pos, "a Note On with velocity 0 deletes the entry like a Note Off",
-		"no branch clears the entry for a Note On with velocity 0: the external highlight of that key is never removed")
-	c.Check(delOnOff, "R17.1", "device.handleInputEvents/note-off-clears", pos, fmt.Sprintf("%d delete site(s) on the external tracker, one of them under Type() == NoteOff", dels), "Note Off does not clear the external highlight")
+	paths, err := Enumerate(fn, SymConfig{Prog: c.P, MaxDepth: 3, Collapse: true, OnlyInline: dv.withHelpers(map[*ssa.Function]bool{}), Start: start, Stop: map[*ssa.BasicBlock]bool{start: true}})
+	if !c.Require(err == nil, "R17.1", "device.handleInputEvents/paths", fmt.Sprint(err)) {
+		return
+	}
+	c.Paths += len(paths)
+	typeTerm := func(t *Term) bool {
+		t = t.StripConv()
+		return t.Op == "call" && strings.Contains(t.Aux, ".Type")
+	}
+	selTerm := func(t *Term) bool {
+		t = t.StripConv()
+		return t.Op == "extract" && t.Aux == "0" && len(t.Args) == 1 && t.Args[0].Op == "select"
+	}
+	cmp := func(v int64, op string, k int64) bool {
+		switch op {
+		case "==":
+			return v == k
+		case "!=":
+			return v != k
+		case "<":
+			return v < k
+		case "<=":
+			return v <= k
+		case ">":
+			return v > k
+		case ">=":
+			return v >= k
+		}
+		return true
+	}
+	consistent := func(p *Path, typ, vel int64) bool {
+		for _, a := range p.Atoms {
+			op, l, r, ok := normAtom(a)
+			if !ok {
+				continue
+			}
+			if _, isC := l.IsConst(); isC {
+				l, r, op = r, l, flipOp(op)
+			}
+			k, isK := r.IsIntConst()
+			if !isK {
+				continue
+			}
+			switch {
+			case typeTerm(l):
+				if !cmp(typ, op, k) {
+					return false
+				}
+			case velocityTerm(l):
+				if !cmp(vel, op, k) {
+					return false
+				}
+			case selTerm(l) && selIdx >= 0:
+				if !cmp(selIdx, op, k) {
+					return false
+				}
+			}
+		}
+		return true
+	}
+	isExt := func(t *Term) bool {
+		return t.Any(func(x *Term) bool { return dv.isFieldLoad(x, "externalNoteTracker") })
+	}
+	type fx struct{ sets, clears, other int; unlocked, stale bool }
+	effectsOf := func(p *Path) fx {
+		var r fx
+		for _, e := range p.Effects {
+			switch e.Kind {
+			case "mapset":
+				if !isExt(e.Args[0]) {
+					continue
+				}
+				if b, ok := e.Args[2].IsBoolConst(); ok && b {
+					r.sets++
+				} else if ok && !b {
+					r.other++ // storing false keeps the key present: the frame loop tests presence
+				} else {
+					r.other++
+				}
+			case "mapdel":
+				if !isExt(e.Args[0]) {
+					continue
+				}
+				r.clears++
+			default:
+				continue
+			}
+			if !heldAt(e.Instr, dv.fields["externalTrackerMutex"]) && !lockedInCallers(dv, e.Instr) {
+				r.unlocked = true
+			}
+			// the map written must be read from the Device field inside the same critical section: Panic replaces the
+			// field, a reference taken earlier (outside the lock / before the loop) points to the discarded maps
+			var root ssa.Value
+			switch x := e.Instr.(type) {
+			case *ssa.MapUpdate:
+				root = x.Map
+			case *ssa.Call:
+				if len(x.Call.Args) > 0 {
+					root = x.Call.Args[0]
+				}
+			}
+			if ld := fieldLoadOf(root, dv.fields["externalNoteTracker"]); ld == nil || !heldAt(ld, dv.fields["externalTrackerMutex"]) && !lockedInCallers(dv, ld) {
+				r.stale = true
+			}
+		}
+		return r
+	}
+	cases := []struct {
+		key, what string
+		typ       int64
+		vels      []int64
+		want      string // "set" | "clear" | "none"
+	}{
+		{"device.handleInputEvents/mark-sounding", "a Note On with velocity > 0", onV, []int64{1, 64, 127}, "set"},
+		{"device.handleInputEvents/note-on-velocity-0-clears", "a Note On with velocity 0", onV, []int64{0}, "clear"},
+		{"device.handleInputEvents/note-off-clears", "a Note Off", offV, []int64{0, 64}, "clear"},
+		{"device.handleInputEvents/other-messages-ignored", "a Control Change", 0xB0, []int64{0, 64}, "none"},
+	}
+	for _, cs := range cases {
+		n, bad := 0, ""
+		for _, vel := range cs.vels {
+			for _, p := range paths {
+				if p.End == "cut" || !consistent(p, cs.typ, vel) {
+					continue
+				}
+				n++
+				r := effectsOf(p)
+				switch {
+				case r.unlocked:
+					bad = "the external tracker is written without its mutex"
+				case r.stale:
+					bad = "the tracker map that is written was not read from Device.externalNoteTracker inside the critical section (a reference cached before the loop / outside the lock): after Panic replaced the map, MIDI-input notes go into the discarded one and are never shown"
+				case r.other > 0:
+					bad = "the entry is overwritten with a value other than true instead of being deleted: the frame loop tests presence, the key stays lit"
+				case cs.want == "set" && (r.sets != 1 || r.clears != 0):
+					bad = fmt.Sprintf("%s does not mark exactly that key as sounding (sets=%d clears=%d on a path)", cs.what, r.sets, r.clears)
+				case cs.want == "clear" && (r.sets != 0 || r.clears < 1):
+					if r.sets > 0 {
+						bad = cs.what + " marks the key as sounding: a key is lit for every Note On without looking at the velocity (velocity 0 is the running-status spelling of Note Off) and stays lit"
+					} else {
+						bad = cs.what + " does not clear the external highlight of that key: it stays lit"
+					}
+				case cs.want == "none" && (r.sets != 0 || r.clears != 0):
+					bad = cs.what + " changes the external highlight"
+				}
+			}
+		}
+		if n == 0 {
+			c.Undec("R17.1", cs.key, pos, "no path of the MIDI-input loop is consistent with "+cs.what)
+			continue
+		}
+		c.Check(bad == "", "R17.1", cs.key, pos, fmt.Sprintf("%d consistent path evaluation(s): %s -> %s, under the tracker mutex", n, cs.what, cs.want), bad)
+	}
+}
+
+// fieldLoadOf: the load instruction of Device.<f> that v (a map reached through lookups) derives from, if it is a
+// direct load in the same function.
+func fieldLoadOf(v ssa.Value, f *types.Var) ssa.Instruction {
+	for i := 0; i < 6 && v != nil; i++ {
+		switch x := v.(type) {
+		case *ssa.Lookup:
+			v = x.X
+		case *ssa.Extract:
+			v = x.Tuple
+		case *ssa.ChangeType:
+			v = x.X
+		case *ssa.UnOp:
+			if x.Op == token.MUL && fieldOfAddr(x.X) == f {
+				return x
+			}
+			return nil
+		default:
+			return nil
+		}
+	}
+	return nil
+}
+
+// lockedInCallers: instr lies in a helper all of whose call sites hold the external tracker mutex.
+func lockedInCallers(dv *dev, in ssa.Instruction) bool {
+	fn := in.Parent()
+	sites, ok := staticCallSites(dv.p, fn)
+	if !ok {
+		return false
+	}
+	for _, ci := range sites {
+		if !heldAt(ci, dv.fields["externalTrackerMutex"]) {
+			return false
+		}
+	}
+	return true
 }
 
 // ruleLedIndices: R17.2.
